@@ -356,6 +356,18 @@ func c02Check(t *core.T, s *c02State, r *c02Req) {
 	if fee >= 0 && fee != actualFee {
 		fail("reported-fee-differs", fmt.Sprintf("reported fee %d but inputs − outputs = %d", fee, actualFee))
 	}
+	// fee borne by the recipients: each of the n named recipients is reduced by the same share and
+	// the shares together are the fee (exactly when there is a change output; a remainder too small
+	// for a change output may be added to the fee)
+	if nSub := int64(len(subSet)); nSub > 0 && eachSub >= 0 {
+		t.Count("fee_subtraction_checked", 1)
+		if extra == 1 && eachSub*nSub != actualFee {
+			fail("fee-share-mismatch", fmt.Sprintf("%d recipient(s) were each reduced by %d but the fee (inputs − outputs) is %d", nSub, eachSub, actualFee))
+		}
+		if extra == 0 && eachSub*nSub > actualFee {
+			fail("fee-share-mismatch", fmt.Sprintf("%d recipient(s) were each reduced by %d, more than the fee %d", nSub, eachSub, actualFee))
+		}
+	}
 	if auto && actualFee < r.Fee {
 		fail("fee-below-user-fee", fmt.Sprintf("fee %d below the user's fee %d", actualFee, r.Fee))
 	}
